@@ -163,10 +163,32 @@ func init() {
 			return nil
 		},
 		Cases: func(c *mon.Ctx) int {
-			return c17CNCases(c) + c17PairCases(c) + c17RelCases(c) + c17OnionCases() + nGen + nSeeds + c.Pick(3000, 100000)
+			return c17CNCases(c) + c17PairCases(c) + c17RelCases(c) + c17OnionCases() + nGen + nSeeds + c.Pick(3000, 100000) + directedSmallTail(c)
 		},
 		RunCase: func(c *mon.Ctx, i int) {
 			rng := c.Rng(i, 0)
+			if base := c17CNCases(c) + c17PairCases(c) + c17RelCases(c) + c17OnionCases() + nGen + nSeeds + c.Pick(3000, 100000); i >= base {
+				// the small directed families (extension shapes: QC statements, policy qualifiers, key identifiers, BOTH LEI
+				// extensions, Tor descriptors ... on every template): extension order and SAN order of each member
+				k := directedPick(c, i-base)
+				if k < 0 {
+					return
+				}
+				o, desc := directedCase(c, k)
+				if o == nil || o.Kind != corpus.Cert {
+					return
+				}
+				dc, err := der.ParseCert(o.DER)
+				if err != nil || dc.HasDuplicateExt() {
+					return
+				}
+				c.R.Count("directed_members_permuted", 1)
+				c17Judge(c, o.Name+"~"+desc, dc, "extension", extList, rng, nil)
+				if (i-base)%3 == 0 {
+					c17Judge(c, o.Name+"~"+desc, dc, "san", sanList, rng, nil)
+				}
+				return
+			}
 			if i < c17CNCases(c) {
 				c17CommonNames(c, i, rng)
 				return
